@@ -1,4 +1,301 @@
 import Tfv.Model
+import Tfv.Spec.Lambda
+import Tfv.Proofs.LambdaMain
+/-!
+# C15 — expansion of composite operators
+
+"`primitive()` returns the expression obtained by replacing every composite operator by its definition and
+reducing all applications of anonymous functions: the result contains no composite operator and no reducible
+application, equals the independently computed normal form, has the same or a more specific type than the
+unexpanded expression, and expanding it again changes nothing."
+
+The statements are about the model `Tfv/Model/Lambda.lean` (M5b): de Bruijn terms, `unfoldDefs` (replace
+every defined operator by `λ…λ. body`), `nf` (fuelled leftmost-outermost beta normalisation) and
+`primitiveL defs fuel t = nf fuel (unfoldDefs defs (defs.length + 1) t)`. The reference notions
+(`Red`, `RedStar`, `Delta`, `DeltaStar`, `noRedex`, `noDefined`, `depOrdered`, `height`) are in
+`Tfv/Spec/Lambda.lean`; the proofs in `Tfv/Proofs/Lambda*.lean` (namespace `Tfv.C15P`).
+
+What is proved:
+
+1. **No composite operator, no reducible application** (`C15_unfold_complete`, `C15_no_redex`,
+   `C15_normal_partial`, `C15_normal_acyclic`, `C15_normal_of_unfolded`): for a definition list in dependency
+   order — more generally any list without recursion (`Stratified`) — the unfolding fuel `defs.length + 1`
+   that `primitiveL` uses is enough, and every successful result satisfies `normalB`. Without that hypothesis
+   the statement is false of the model: `C15_normal_fails_recursive` (`a := a`).
+2. **Expanding again changes nothing** (`C15_idempotent_nf`, `C15_unfold_identity`, `C15_idempotent`).
+3. **The result is obtained by unfolding definitions and beta steps only** (`C15_sound`, `C15_whnf_sound`,
+   `C15_unfold_is_delta`, `C15_primitive_is_reduction`).
+4. **The fuel is an artefact** (`C15_fuel_monotone`, `C15_whnf_fuel_monotone`, `C15_deterministic`,
+   `C15_primitive_deterministic`): more fuel never changes an answer.
+5. **The result equals the independently computed normal form** (`C15_confluent`, `C15_normal_form_unique`,
+   `C15_equals_normal_form`, `C15_standard_agrees`): beta reduction on these terms is confluent
+   (Church–Rosser, proved via parallel reduction and complete developments after showing that the model's
+   integer-shift `LTerm.beta` is ordinary capture-free substitution, `C15_beta_is_substitution`), so a term has
+   at most one normal form and `nf` returns it, whichever strategy an independent evaluator uses; in particular
+   `nf` agrees with the applicative-order evaluator `nfInner` whenever both terminate.
+6. **The normaliser is complete** (`C15_complete`, `C15_none_iff_no_normal_form`, `C15_primitive_complete`):
+   leftmost-outermost reduction is normalising (standardisation theorem), so if the unfolded expression has a
+   normal form at all, `nf`/`primitiveL` return it for every sufficiently large fuel; `none` for every fuel
+   means there is no normal form.
+
+Outside this model, covered by the differential test and the oracle instead: **type preservation** ("the same
+or a more specific type") — the terms here are untyped — and the **in-place mutation** of `Variable` objects by
+the real implementation, which coincides with capture-free substitution only when no definition uses a
+parameter twice (finding D8 otherwise). Termination is not claimed: untyped terms such as `exOmega` have no
+normal form and `nf` returns `none` on them for every fuel (shown below).
+-/
 namespace Tfv.C15
-theorem placeholder : True := trivial
+open Tfv Tfv.LamSpec Tfv.C15P
+
+/-! ## 1. the result is normal -/
+
+/-- If the definitions are in dependency order (the body of each definition mentions only operators that
+are undefined or defined strictly earlier in the list), unfolding with any fuel `n ≥ defs.length` — `primitiveL`
+uses `defs.length + 1` — leaves no operator that has a definition. Distinctness of the names is not needed:
+a later definition with a name already used is never looked at (`List.find?` returns the first). -/
+theorem C15_unfold_complete (defs : List LDef) (hd : depOrdered defs = true) (n : Nat)
+    (hn : defs.length ≤ n) (t : LTerm) : noDefined defs (unfoldDefs defs n t) = true :=
+  unfold_complete hd n hn t
+
+example : depOrdered exDefs = true ∧ wfDefs exDefs = true ∧ exDefs.length ≤ exDefs.length + 1 ∧
+    unfoldDefs exDefs (exDefs.length + 1) exTerm2 = exUnfolded2 ∧ noDefined exDefs exTerm2 = false :=
+  ⟨exDefs_dep, exDefs_wf, Nat.le_succ _, exUnfold2, by decide⟩
+
+/-- The same for any definition list without recursion, in whatever order it is written: it is enough that
+some level function `ρ` bounded by the number of definitions strictly decreases from a defined name to
+every defined operator in its body (`Stratified`). The fuel counts nesting depth of definitions, not
+position in the list. -/
+theorem C15_unfold_complete_acyclic (defs : List LDef) (ρ : String → Nat) (hd : Stratified defs ρ)
+    (n : Nat) (hn : defs.length ≤ n) (t : LTerm) : noDefined defs (unfoldDefs defs n t) = true :=
+  unfold_complete_strat hd n hn t
+
+example : Stratified exRev (fun n => if n = "a" then 1 else 0) ∧ depOrdered exRev = false ∧
+    unfoldDefs exRev (exRev.length + 1) (.op "a") = .op "u" :=
+  ⟨exRev_stratified, exRev_not_dep, exRev_unfold⟩
+
+/-- A dependency-ordered list is stratified by position. -/
+theorem C15_depOrdered_stratified (defs : List LDef) (hd : depOrdered defs = true) :
+    Stratified defs (rank defs) :=
+  depOrdered_stratified hd
+
+/-- Every successful run of the normaliser returns a term without reducible application: no
+`.app f x` anywhere in it has an anonymous function as `f`. No hypothesis on the input. -/
+theorem C15_no_redex (n : Nat) (t r : LTerm) (h : nf n t = some r) : noRedex r = true :=
+  nf_noRedex n t r h
+
+example : nf 6 exUnfolded = some exResult ∧ noRedex exUnfolded = false := ⟨exNf, by decide⟩
+
+/-- `normalB` (the check the driver reports) is exactly "no reducible application and no defined operator". -/
+theorem C15_normalB_iff (defs : List LDef) (t : LTerm) :
+    normalB defs t = (noRedex t && noDefined defs t) :=
+  normalB_iff defs t
+
+/-- C15, first clause, in its weakest form: whenever the unfolding step left no defined operator, a
+successful `primitiveL` returns a term with no composite operator and no reducible application. -/
+theorem C15_normal_of_unfolded (defs : List LDef) (fuel : Nat) (t r : LTerm)
+    (hu : noDefined defs (unfoldDefs defs (defs.length + 1) t) = true)
+    (h : primitiveL defs fuel t = some r) : normalB defs r = true :=
+  primitive_normal_of_unfolded hu h
+
+/-- C15, first clause, for definitions in dependency order: a successful `primitiveL` returns a term with no
+composite operator and no reducible application. Named `_partial` because the hypothesis on `defs` cannot
+be dropped (`C15_normal_fails_recursive`). -/
+theorem C15_normal_partial (defs : List LDef) (hd : depOrdered defs = true) (fuel : Nat) (t r : LTerm)
+    (h : primitiveL defs fuel t = some r) : normalB defs r = true :=
+  primitive_normal hd h
+
+example : depOrdered exDefs = true ∧ primitiveL exDefs 6 exTerm = some exResult ∧
+    normalB exDefs exResult = true ∧ normalB exDefs exTerm = false :=
+  ⟨exDefs_dep, exPrim, exResult_normal, by decide⟩
+
+example : primitiveL exDefs 16 exTerm2 = some exResult2 ∧ normalB exDefs exResult2 = true :=
+  ⟨exPrim2, exResult2_normal⟩
+
+/-- The same for any definition list without recursion (`Stratified`), in any order. -/
+theorem C15_normal_acyclic (defs : List LDef) (ρ : String → Nat) (hd : Stratified defs ρ) (fuel : Nat)
+    (t r : LTerm) (h : primitiveL defs fuel t = some r) : normalB defs r = true :=
+  primitive_normal_strat hd h
+
+/-- Counterexample to the unconditional statement: with the recursive definition `a := a` the model's
+`primitiveL` succeeds on `a` and returns `a` itself, which still is a composite operator. -/
+theorem C15_normal_fails_recursive :
+    primitiveL exRec 5 (.op "a") = some (.op "a") ∧ normalB exRec (.op "a") = false ∧
+    depOrdered exRec = false :=
+  ⟨exRec_prim, exRec_not_normal, exRec_not_dep⟩
+
+/-! ## 2. expanding again changes nothing -/
+
+/-- A term without reducible application normalises to itself, for every fuel above its height. -/
+theorem C15_idempotent_nf (r : LTerm) (hr : noRedex r = true) (m : Nat) (hm : height r < m) :
+    nf m r = some r :=
+  nf_fix m r hr hm
+
+/-- Normalising the result of a normalisation again returns it unchanged. -/
+theorem C15_nf_nf (n : Nat) (t r : LTerm) (h : nf n t = some r) (m : Nat) (hm : height r < m) :
+    nf m r = some r :=
+  nf_fix m r (nf_noRedex n t r h) hm
+
+example : nf 6 exUnfolded = some exResult ∧ height exResult < 4 ∧ nf 4 exResult = some exResult :=
+  ⟨exNf, by decide, by decide⟩
+
+/-- Unfolding is the identity on a term without defined operators, for every fuel. -/
+theorem C15_unfold_identity (defs : List LDef) (n : Nat) (t : LTerm) (h : noDefined defs t = true) :
+    unfoldDefs defs n t = t :=
+  unfold_id n t h
+
+/-- "Expanding it again changes nothing": a term that passes `normalB` is returned unchanged by
+`primitiveL`, for every fuel above its height. -/
+theorem C15_primitive_fixed_point (defs : List LDef) (r : LTerm) (h : normalB defs r = true) (m : Nat)
+    (hm : height r < m) : primitiveL defs m r = some r :=
+  primitive_fix h m hm
+
+/-- C15, last clause: for definitions in dependency order, expanding the result of an expansion returns
+it unchanged (with any fuel above the height of the result; by `C15_fuel_monotone` no fuel gives a
+different answer). -/
+theorem C15_idempotent (defs : List LDef) (hd : depOrdered defs = true) (fuel : Nat) (t r : LTerm)
+    (h : primitiveL defs fuel t = some r) (m : Nat) (hm : height r < m) :
+    primitiveL defs m r = some r :=
+  primitive_fix (primitive_normal hd h) m hm
+
+example : depOrdered exDefs = true ∧ primitiveL exDefs 6 exTerm = some exResult ∧
+    height exResult < 4 ∧ primitiveL exDefs 4 exResult = some exResult :=
+  ⟨exDefs_dep, exPrim, by decide, primitive_fix exResult_normal 4 (by decide)⟩
+
+/-! ## 3. only unfolding and beta steps -/
+
+/-- The result of `nf` is reached from the input by beta steps (`Red`: contract one `(λ. b) x` anywhere). -/
+theorem C15_sound (n : Nat) (t r : LTerm) (h : nf n t = some r) : RedStar t r :=
+  nf_sound n t r h
+
+/-- The same for weak head normalisation. -/
+theorem C15_whnf_sound (n : Nat) (t r : LTerm) (h : whnf n t = some r) : RedStar t r :=
+  whnf_sound n t r h
+
+example : whnf 5 exUnfolded = some (.app (.op "u1") (.app (.op "u1") (.app (.op "u2") (.src 0)))) := by
+  decide
+
+/-- `unfoldDefs` performs delta steps only (`Delta`: replace one defined operator by `λ…λ. body` of its
+first definition), for every fuel and every definition list. -/
+theorem C15_unfold_is_delta (defs : List LDef) (n : Nat) (t : LTerm) :
+    DeltaStar defs t (unfoldDefs defs n t) :=
+  unfold_delta defs n t
+
+/-- `primitiveL` is delta unfolding followed by beta reduction. -/
+theorem C15_primitive_is_reduction (defs : List LDef) (fuel : Nat) (t r : LTerm)
+    (h : primitiveL defs fuel t = some r) : ∃ u, DeltaStar defs t u ∧ RedStar u r :=
+  primitive_is_reduction h
+
+example : DeltaStar exDefs exTerm exUnfolded ∧ RedStar exUnfolded exResult :=
+  ⟨exUnfold ▸ unfold_delta exDefs _ exTerm, nf_sound 6 _ _ exNf⟩
+
+/-! ## 4. the fuel is an artefact -/
+
+/-- More fuel never changes an answer of `nf`. -/
+theorem C15_fuel_monotone (n m : Nat) (t r : LTerm) (h : nf n t = some r) (hnm : n ≤ m) :
+    nf m t = some r :=
+  nf_mono h hnm
+
+/-- More fuel never changes an answer of `whnf`. -/
+theorem C15_whnf_fuel_monotone (n m : Nat) (t r : LTerm) (h : whnf n t = some r) (hnm : n ≤ m) :
+    whnf m t = some r :=
+  whnf_mono h hnm
+
+/-- Two successful runs of `nf` with different fuels return the same term. -/
+theorem C15_deterministic (n m : Nat) (t r₁ r₂ : LTerm) (h₁ : nf n t = some r₁) (h₂ : nf m t = some r₂) :
+    r₁ = r₂ :=
+  nf_deterministic h₁ h₂
+
+/-- More fuel never changes an answer of `primitiveL`. -/
+theorem C15_primitive_fuel_monotone (defs : List LDef) (n m : Nat) (t r : LTerm)
+    (h : primitiveL defs n t = some r) (hnm : n ≤ m) : primitiveL defs m t = some r :=
+  primitive_mono h hnm
+
+/-- Two successful runs of `primitiveL` with different fuels return the same term. -/
+theorem C15_primitive_deterministic (defs : List LDef) (n m : Nat) (t r₁ r₂ : LTerm)
+    (h₁ : primitiveL defs n t = some r₁) (h₂ : primitiveL defs m t = some r₂) : r₁ = r₂ :=
+  primitive_deterministic h₁ h₂
+
+example : primitiveL exDefs 5 exTerm = none ∧ primitiveL exDefs 6 exTerm = some exResult ∧
+    primitiveL exDefs 100 exTerm = some exResult :=
+  ⟨exPrim_short, exPrim, primitive_mono exPrim (by decide)⟩
+
+/-! ## 5. the independently computed normal form -/
+
+/-- The model's beta step, written with integer shifts like the Python code
+(`shift (-1) 0 (subst 0 (shift 1 0 x) b)`), is the ordinary capture-free substitution of `x` for index 0
+in `b` (`lsub`, one pass, natural-number `llift`). -/
+theorem C15_beta_is_substitution (b x : LTerm) : LTerm.beta b x = lsub b x 0 :=
+  beta_eq b x
+
+/-- Church–Rosser: two beta reduction sequences from the same term can always be joined. -/
+theorem C15_confluent (a b c : LTerm) (hab : RedStar a b) (hac : RedStar a c) :
+    ∃ d, RedStar b d ∧ RedStar c d :=
+  red_confluent hab hac
+
+example : RedStar exUnfolded exResult ∧ RedStar exUnfolded exUnfolded := ⟨nf_sound 6 _ _ exNf, .refl _⟩
+
+/-- `noRedex` is exactly "no beta step is possible". -/
+theorem C15_noRedex_iff_normal (t : LTerm) : noRedex t = true ↔ Normal t :=
+  ⟨noRedex_normal, normal_noRedex⟩
+
+/-- A term has at most one normal form, whatever the order of reduction. -/
+theorem C15_normal_form_unique (t r₁ r₂ : LTerm) (h₁ : RedStar t r₁) (h₂ : RedStar t r₂)
+    (n₁ : noRedex r₁ = true) (n₂ : noRedex r₂ = true) : r₁ = r₂ :=
+  normal_form_unique h₁ h₂ n₁ n₂
+
+/-- C15, "equals the independently computed normal form": if `nf` succeeds, its result is THE normal form
+of the input — any term without reducible application that somebody reaches from the input by beta steps,
+in any order, is that result. -/
+theorem C15_equals_normal_form (n : Nat) (t r r' : LTerm) (h : nf n t = some r) (hr : RedStar t r')
+    (hn : noRedex r' = true) : r = r' :=
+  nf_eq_normal_form h hr hn
+
+/-- The applicative-order evaluator `nfInner` (normalise function and argument first, then contract) also
+performs beta steps only and returns terms without reducible application. -/
+theorem C15_inner_spec (n : Nat) (t r : LTerm) (h : nfInner n t = some r) :
+    RedStar t r ∧ noRedex r = true :=
+  nfInner_spec n t r h
+
+/-- Leftmost-outermost `nf` (the model) and innermost `nfInner` (an independent strategy) return the same
+term whenever both terminate. -/
+theorem C15_standard_agrees (n m : Nat) (t r₁ r₂ : LTerm) (h₁ : nf n t = some r₁)
+    (h₂ : nfInner m t = some r₂) : r₁ = r₂ :=
+  nf_agrees_inner h₁ h₂
+
+example : nf 6 exUnfolded = some exResult ∧ nfInner 10 exUnfolded = some exResult := ⟨exNf, exInner⟩
+example : nf 16 exUnfolded2 = some exResult2 ∧ nfInner 13 exUnfolded2 = some exResult2 :=
+  ⟨exNf2, exInner2⟩
+/-- the two strategies do differ in termination: `(λx. s0) Ω` -/
+example : nf 2 exK = some (.src 0) ∧ nfInner 50 exK = none := ⟨exK_nf, exK_inner⟩
+
+/-! ## 6. the normaliser finds the normal form whenever there is one -/
+
+/-- Normalisation theorem (leftmost-outermost reduction is normalising): if the input can be brought to a
+term `r` without reducible application by beta steps in ANY order, then `nf` returns exactly `r` for every
+sufficiently large fuel. Together with `C15_sound`/`C15_no_redex`: `nf` is a complete and correct
+computation of the normal form; the fuel only decides how long one is willing to wait. -/
+theorem C15_complete (t r : LTerm) (h : RedStar t r) (hn : noRedex r = true) :
+    ∃ n, ∀ m, n ≤ m → nf m t = some r :=
+  (nf_complete h hn).elim fun n hnf => ⟨n, fun _ hm => nf_mono hnf hm⟩
+
+example : RedStar exK (.src 0) ∧ noRedex (.src 0) = true ∧ nfInner 50 exK = none :=
+  ⟨nf_sound 2 _ _ exK_nf, rfl, exK_inner⟩
+
+/-- `nf` returns `none` for every fuel exactly when the input has no normal form at all. -/
+theorem C15_none_iff_no_normal_form (t : LTerm) :
+    (∀ n, nf n t = none) ↔ ¬ ∃ r, RedStar t r ∧ noRedex r = true :=
+  nf_none_iff t
+
+/-- `(λx. x x) (λx. x x)` has no normal form: the model's normaliser fails on it for every fuel. -/
+example : ∀ n, nf n exOmega = none := exOmega_diverges
+
+/-- If the unfolded expression has a normal form, `primitiveL` returns it for every sufficiently large fuel. -/
+theorem C15_primitive_complete (defs : List LDef) (t r : LTerm)
+    (h : RedStar (unfoldDefs defs (defs.length + 1) t) r) (hn : noRedex r = true) :
+    ∃ n, ∀ m, n ≤ m → primitiveL defs m t = some r :=
+  primitive_complete h hn
+
+example : RedStar (unfoldDefs exDefs (exDefs.length + 1) exTerm) exResult ∧ noRedex exResult = true :=
+  ⟨exUnfold ▸ nf_sound 6 _ _ exNf, by decide⟩
+
 end Tfv.C15
